@@ -37,7 +37,7 @@ var (
 		"invalid://", "builtin://", "", "kubernetes:/", "Kubernetes://", "kubernetes-gateway:/", "file://", "kubernetes-gateway//", "configmaps://",
 		"kubernetes://kubernetes://", "kubernetes://configmap://"}
 	segs = []string{"ns1", "ns2", "ns1", "ns2", "istio-system", "a", "b", "a", "gw", "cm", "a-cacert", "b-cacert", "tricky-cacert", "-cacert", "",
-		"..", ".", " ", "ns1%2Fa", "a?ns=ns2", "NS1", "ns1-cacert", "é"}
+		"..", ".", " ", "ns1%2Fa", "a?ns=ns2", "NS1", "ns1-cacert", "é", "a-cacert-v2", "-cacert-x", "x-cacert-cacert", "cacert", "a-cacertx"}
 )
 
 func genName(r *wire.Rng) string {
